@@ -3,6 +3,7 @@ CONSTANTS
   MaxOps = 4
   MaxInitTests = 3
   SwCloneCopiesSlices = TRUE
+  SwMergeFresh = TRUE
 INIT Init
 NEXT Next
 VIEW View
